@@ -408,6 +408,7 @@ func (li *LockInfo) classify(v ssa.Value, depth int) (LockClass, bool) {
 		}
 		var cl LockClass
 		n := 0
+		members := map[LockClass]bool{}
 		for _, cs := range li.Callers[f] {
 			call, ok := asCall(cs.in)
 			if !ok {
@@ -418,16 +419,32 @@ func (li *LockInfo) classify(v ssa.Value, depth int) (LockClass, bool) {
 				return "", false
 			}
 			c2, ok := li.classify(args[idx], depth+1)
-			if !ok || (n > 0 && c2 != cl) {
+			if !ok {
 				return "", false
 			}
+			members[c2] = true
 			cl = c2
 			n++
+		}
+		if len(members) > 1 {
+			// a helper shared by several owners (touch(&c.mu, …) from both backends): the mutex it is handed is one
+			// of several classes, depending on the caller. It gets a class of its own whose members are remembered.
+			pc := LockClass(fmt.Sprintf("P:%s#%d", fnKey(f), idx))
+			var ms []LockClass
+			for m := range members {
+				ms = append(ms, m)
+			}
+			sort.Slice(ms, func(i, j int) bool { return ms[i] < ms[j] })
+			paramMembers[pc] = ms
+			return pc, true
 		}
 		return cl, n > 0
 	}
 	return "", false
 }
+
+// paramMembers: for the class of a mutex parameter that different callers bind to different locks, those locks.
+var paramMembers = map[LockClass][]LockClass{}
 
 type flowState struct {
 	may, must lset
@@ -665,8 +682,18 @@ func (li *LockInfo) order() {
 		if !op.kind.acquire() {
 			continue
 		}
+		expand := func(cl LockClass) []LockClass {
+			if ms, ok := paramMembers[cl]; ok {
+				return ms
+			}
+			return []LockClass{cl}
+		}
 		for h := range li.HeldMay(op.in) {
-			li.Edges = append(li.Edges, orderEdge{from: h, to: op.class, blocking: op.kind.blocking(), site: op.in, fn: op.fn})
+			for _, from := range expand(h) {
+				for _, to := range expand(op.class) {
+					li.Edges = append(li.Edges, orderEdge{from: from, to: to, blocking: op.kind.blocking(), site: op.in, fn: op.fn})
+				}
+			}
 		}
 	}
 }
